@@ -444,7 +444,7 @@ def install_fallback_structure(reg):
                 ("frame", frame(c)), ("inv", S.inv_all(c.sd))]),
         },
         trusted_fragments=[{"name": "pick one state of the attractor and name its variables", "first": "attr_seed = next(attr_vertices.items()).to_dict()",
-                            "last": "attr_seed_named = {sd.network.get_variable_name(k): v for k, v in attr_seed.items()}", "sha256": None,
+                            "last": "attr_seed_named = {sd.network.get_variable_name(k): v for k, v in attr_seed.items()}", "sha256": "3fc9fcaca4a67845605ab724d8bf15315d5e270ffd1bd8251327a5bbf3cdf42b",
                             "assigns": {"attr_seed_named": TSpace}, "ensures": lambda c: [T.wf_space(c.attr_seed_named)]}],
         note="the exclusion rule of the skip-node branch is pinned exactly as written (an empty cached list, not merely a falsy one); its soundness "
              "is the known finding D12, not claimed here"))
